@@ -21,7 +21,7 @@ RULE = (
     "containing CRLF/NUL, any response, any malformed line. Distinct = distinct wire bytes."
 )
 ASSUMPTIONS = [
-    "paths are ASCII origin-form paths of RFC 3986 pchars (empty segments allowed, so a path may start with '//'); header keys contain no ': ' and no CR/LF; values contain no CR/LF",
+    "paths are origin-form paths of RFC 3986 pchars (empty segments allowed, so a path may start with '//'), one in ten with arbitrary other bytes except the request line's delimiters and '?'; header keys contain no ': ' and no CR/LF; values contain no CR/LF",
     "duplicate header / parameter names follow dict semantics (last one wins)",
     "reasons are single tokens (the statement's quantifier), so 'Not Found' is outside",
 ]
@@ -197,6 +197,12 @@ def gen_request(rng):
                 seg += pct(rng.randrange(256), rng)
         segs.append(bytes(seg))
     path = b"/" + b"/".join(segs)
+    if rng.random() < 0.1:
+        # any other byte that the request line's own delimiters (SP HT LF VT FF CR) and the query delimiter do not claim:
+        # control characters such as 1c..1f, '#', DEL, and bytes >= 0x80 (kept byte for byte)
+        odd = [b for b in range(1, 256) if b not in (0x09, 0x0A, 0x0B, 0x0C, 0x0D, 0x20, 0x3F)]
+        pos = rng.randrange(1, len(path) + 1)
+        path = path[:pos] + bytes(rng.choice(odd) for _ in range(rng.randrange(1, 4))) + path[pos:]
     r = rng.random()
     if r < 0.08:
         path = b"/" + path  # an empty first segment: "//api/v1" is a valid origin-form path, not a network location
